@@ -101,3 +101,23 @@ Lemma reg_sometimes_leaks :
 Proof. split; [reflexivity|discriminate]. Qed.
 Lemma reg_never_leaks : reg_history N WriteNever 7%N [(1%N, true)] = [7%N].
 Proof. reflexivity. Qed.
+
+(* ---------- accumulators: a list that is only ever appended to (the captures of a comment-rule match) ----------
+   declared per iteration of the loop over the rules, or once for the whole loop.  Each rule appends its own captures and
+   then looks captures up by name, first hit wins: what it sees must be its own list. *)
+Inductive acc_scope := ScopeIteration | ScopeLoop.
+
+Fixpoint acc_history {A} (scope : acc_scope) (acc : list A) (h : list (list A)) : list (list A) :=
+  match h with
+  | [] => []
+  | own :: h' => let seen := match scope with ScopeIteration => own | ScopeLoop => acc ++ own end in
+                 seen :: acc_history scope seen h'
+  end.
+
+Theorem acc_iteration_own {A} : forall (acc : list A) h, acc_history ScopeIteration acc h = h.
+Proof. intros acc h. revert acc. induction h as [|own h IH]; intros acc; [reflexivity|]. cbn [acc_history]. now rewrite IH. Qed.
+
+(* one object for the whole loop: a later rule finds the capture of an earlier, rejected rule under the same name *)
+Lemma acc_loop_leaks :
+  acc_history ScopeLoop [] [[("who", 1%N)]; [("who", 2%N)]]%string = [[("who", 1%N)]; [("who", 1%N); ("who", 2%N)]]%string.
+Proof. reflexivity. Qed.
